@@ -123,3 +123,108 @@ Example C16_regression_F6b_sizes :
   decodeTMS doc_zero = Error /\ decodeTMS doc_vmw_neg = Error /\ decodeTMS doc_vmw_frac = Error /\
   exists t m, decodeTMS doc_big_ok = Ok t /\ the_tm t = Some m /\ tm_tileWidth m = 2 ^ 53 - 1.
 Proof. exact regression_F6b. Qed.
+
+
+(** ** Source ties (tie G2): the project's OWN code around the JSON libraries in tms20/tms20.go is REGENERATED on every
+    run into gen/TmsJsonGen.v (translator/tmsjson.go: statement by statement; the struct types URICRS, WKTCRS,
+    ReferenceSystemCRS, TileMatrixSet become Records, the interface CRS an inductive; reading of the Go constructs:
+    Tms/GoJson.v) and proved equal to the hand-written model of Tms/Model.v for ALL inputs.
+    What stays MODELLED (trusted; each call is mapped only after its exact shape was checked in the AST, the list is at the
+    top of gen/TmsJsonGen.v): encoding/json (text <-> tree, json.Marshal of tagged structs), marshmallow (population of a
+    struct from a map / a text: decodeTM_fields, top_step, projjson_ok), validator (one function per `validate:` tag),
+    creasty/defaults (no `default:` tag: identity), regexp (the two CRS URI expressions: parse_crs_url / parse_crs_urn),
+    strconv.ParseInt, sort.Slice.  Inside a TileMatrixSet the bounding box member is read by marshmallow through
+    TwoDBoundingBox.UnmarshalJSON: there it is the model's decodeBBox (inside top_step), which the regenerated
+    gen_TwoDBoundingBox_UnmarshalJSON is proved to compute (C16_source_tie_bbox). *)
+From Texel Require Import Tms.GoJson Tms.ProofsGenJson.
+From Texel.Gen Require Import TmsJsonGen.
+
+(** checkUnsignedIntegers (repair of F6b): regenerated loop over the keys, map lookup, type assertion and float64 tests
+    (number < 0 || number != math.Trunc(number) || number >= 1<<53)  =  the model's uint_member_ok / uint_number_ok *)
+Theorem C16_source_tie_unsigned_check : forall o keys,
+  gen_checkUnsignedIntegers o keys = if forallb (fun k => uint_member_ok k o) keys then Ok tt else Error.
+Proof. exact checkUnsignedIntegers_tie. Qed.
+Print Assumptions C16_source_tie_unsigned_check.
+
+(** TileMatrix.UnmarshalJSONFromMap: regenerated are the type assertion on the raw value, the calls of
+    checkUnsignedIntegers with their key names (the raw check comes BEFORE the population), the walk over
+    variableMatrixWidths; the population + validation by the libraries stays the model's decodeTM_fields *)
+Theorem C16_source_tie_tile_matrix : forall j,
+  gen_TileMatrix_UnmarshalJSONFromMap zero_tm j = match j with JObj o => decodeTM o | _ => Error end.
+Proof. exact TileMatrix_UnmarshalJSONFromMap_tie. Qed.
+Print Assumptions C16_source_tie_tile_matrix.
+
+(** TwoDPoint.UnmarshalJSONFromMap (repair of F6c): exactly two numbers, whatever the receiver held before
+    (a tree produced by encoding/json only holds numbers with a finite float64 image: nums_finite) *)
+Theorem C16_source_tie_point : forall p j, nums_finite j = true ->
+  match conv_point j with
+  | CVal (a, b) => gen_TwoDPoint_UnmarshalJSONFromMap p j = Ok (f64_dec a, f64_dec b)
+  | _ => gen_TwoDPoint_UnmarshalJSONFromMap p j = Error
+  end.
+Proof. exact TwoDPoint_UnmarshalJSONFromMap_tie. Qed.
+Print Assumptions C16_source_tie_point.
+
+(** unmarshalTileMatrices: the array test, the object test per element, the decoding of each tile matrix into a fresh
+    value, strconv.ParseInt of its id, the map assignment *)
+Theorem C16_source_tie_tile_matrices : forall j,
+  gen_unmarshalTileMatrices j = match j with JArr l => decodeTMs l [] | _ => Error end.
+Proof. exact unmarshalTileMatrices_tie. Qed.
+Print Assumptions C16_source_tie_tile_matrices.
+
+(** unmarshalCRS with URICRS / WKTCRS / ReferenceSystemCRS .UnmarshalJSONFromMap: string or object, the three forms tried
+    in order, the key names "description" / "uri" / "wkt" / "referenceSystem", asString; [crs_of] reads the regenerated
+    struct as the model's crs (a nil CRS without an error would be Panic, which decodeCRS never is) *)
+Theorem C16_source_tie_crs : forall j, bind (gen_unmarshalCRS j) crs_of = decodeCRS j.
+Proof. exact unmarshalCRS_tie. Qed.
+Print Assumptions C16_source_tie_crs.
+
+(** ... and the authority / version / code stored in a decoded URICRS are the groups of the model's URI parser *)
+Theorem C16_source_tie_crs_uri_parts : forall j r, gen_unmarshalCRS j = Ok (gen_CRS_URICRS r) ->
+  parse_crs_uri (gen_URICRS_uri r) = Some (gen_URICRS_authority r, gen_URICRS_version r, gen_URICRS_code r).
+Proof. exact unmarshalCRS_uri_parts. Qed.
+Print Assumptions C16_source_tie_crs_uri_parts.
+
+(** TileMatrixSet.UnmarshalJSON: the order of the steps -- defaults, population, "crs" from the leftover members through
+    unmarshalCRS, "tileMatrices" through unmarshalTileMatrices, validation by the struct tags (regenerated one conjunct
+    per tag) -- is the model's decodeTMS; [tms_of] reads the regenerated struct as the model's tms *)
+Theorem C16_source_tie_tile_matrix_set : forall j,
+  bind (gen_TileMatrixSet_UnmarshalJSON gen_TileMatrixSet_zero j) tms_of = decodeTMS j.
+Proof. exact TileMatrixSet_UnmarshalJSON_tie. Qed.
+Print Assumptions C16_source_tie_tile_matrix_set.
+
+(** TwoDBoundingBox.UnmarshalJSON: same shape -- population (bb_step), "crs" through unmarshalCRS, validation by the
+    struct tags (regenerated) -- is the model's decodeBBox; [bbox_of] reads the regenerated struct as the model's bbox *)
+Theorem C16_source_tie_bbox : forall j,
+  bind (gen_TwoDBoundingBox_UnmarshalJSON gen_TwoDBoundingBox_zero j) bbox_of = decodeBBox j.
+Proof. exact TwoDBoundingBox_UnmarshalJSON_tie. Qed.
+Print Assumptions C16_source_tie_bbox.
+
+(** MarshalJSON of the three CRS types (repair 6065b67: the key "referenceSystem"), through the interface *)
+Theorem C16_source_tie_crs_marshal : forall c m, crs_of c = Ok m -> gen_CRS_MarshalJSON c = Ok (encodeCRS m).
+Proof. exact CRS_MarshalJSON_tie. Qed.
+Print Assumptions C16_source_tie_crs_marshal.
+
+(** TwoDBoundingBox.MarshalJSON: the members by the json tags of the struct, "crs" last *)
+Theorem C16_source_tie_bbox_marshal : forall r b, bbox_of r = Ok b -> gen_TwoDBoundingBox_MarshalJSON r = Ok (encodeBBox b).
+Proof. exact TwoDBoundingBox_MarshalJSON_tie. Qed.
+Print Assumptions C16_source_tie_bbox_marshal.
+
+(** TileMatrixSet.MarshalJSON: the matrices sorted by the integer of their id (regenerated comparison), the members by
+    the json tags of the struct in field order with their omitempty, "crs" and "tileMatrices" last *)
+Theorem C16_source_tie_marshal : forall r t, tms_of r = Ok t -> gen_TileMatrixSet_MarshalJSON r = Ok (encodeTMS t).
+Proof. exact TileMatrixSet_MarshalJSON_tie. Qed.
+Print Assumptions C16_source_tie_marshal.
+
+(** the regenerated code runs: the raw check on the old witnesses of F6b, a point with three elements (F6c), and a
+    built-in document decoded and printed again by the regenerated functions alone *)
+Example C16_source_tie_runs :
+  gen_checkUnsignedIntegers [("tileWidth", jn (-1) 0)] ["tileWidth"] = Error /\
+  gen_checkUnsignedIntegers [("tileWidth", jn 2565 (-1))] ["tileWidth"] = Error /\
+  gen_checkUnsignedIntegers [("tileWidth", jn 9007199254740992 0)] ["tileWidth"] = Error /\
+  gen_checkUnsignedIntegers [("tileWidth", jn 9007199254740991 0); ("tileHeight", JStr "x")] ["tileWidth"; "tileHeight"] = Ok tt /\
+  gen_TwoDPoint_UnmarshalJSONFromMap (fl_of_Z 0, fl_of_Z 0) (JArr [jn 1 0; jn 2 0; jn 3 0]) = Error /\
+  gen_TwoDPoint_UnmarshalJSONFromMap (fl_of_Z 0, fl_of_Z 0) (JArr [jn 15 (-1); jn (-2) 0]) = Ok (FNum (3 # 2), FNum (-2 # 1)) /\
+  exists r t, gen_TileMatrixSet_UnmarshalJSON gen_TileMatrixSet_zero gen_doc_NetherlandsRDNewQuad = Ok r /\
+    tms_of r = Ok t /\ List.length (t_matrices t) = 17%nat /\
+    gen_TileMatrixSet_MarshalJSON r = Ok (encodeTMS t) /\ decodeTMS (encodeTMS t) = Ok t.
+Proof. exact source_tie_runs. Qed.
